@@ -682,6 +682,8 @@ class Interp:
             return Pinned(itv.mask.dims[0], itv.mask.poly)
         if isinstance(itv, _Range):
             return Pinned(itv.label) if itv.label else None
+        if isinstance(itv, SymTable):
+            return {c: Arr(tuple(a.dims[1:]), a.poly, unit=a.unit) for c, a in itv.cols.items() if isinstance(a, Arr)}         # the generic row
         if isinstance(itv, _Zip):
             inners = [self._generic_iter(x, st) for x in itv.inners]
             if all(isinstance(x, list) for x in inners):
@@ -692,11 +694,13 @@ class Interp:
         if isinstance(itv, _Enumerate):
             inner = self._generic_iter(itv.inner, st)
             if isinstance(inner, list):
-                return [(i, v) for i, v in enumerate(inner)]
+                return [(i, v) for i, v in enumerate(inner, getattr(itv, 'start', 0))]
             lab = itv.label
             if isinstance(itv.inner, _WhereIdx) and inner is not None:
                 return (Pinned(itv.inner.sel_label()), inner)      # counter within the selection, position on the axis
             if inner is not None and lab:
+                if getattr(itv, 'start', 0):
+                    return (Arr((), alg.sym('idx:' + str(lab), lab) + num(itv.start), unit=num(1)), inner)       # the counter starts at ``start``: position + start
                 return (Pinned(lab), inner)
         return None
 
@@ -893,6 +897,14 @@ class Interp:
             if isinstance(k, str):
                 old.cols[k] = val if isinstance(val, Arr) else Unk('table column value', t)
             return
+        if isinstance(old, SymTable) and len(chain_nodes) >= 2:
+            k = self.expr(chain_nodes[-1].slice, env, mod)
+            if isinstance(k, str) and isinstance(old.cols.get(k), Arr):
+                # table[column][...] = value: a store into the column's array
+                tbl_ = old
+                old = tbl_.cols[k]
+                setv = lambda v_, tbl_=tbl_, k=k: tbl_.cols.__setitem__(k, v_)
+                chain_nodes = chain_nodes[:-1]
         if not isinstance(old, Arr):
             setv(Unk('subscript store into %r' % (old,), t))
             return
@@ -1278,13 +1290,15 @@ class Interp:
             vals_ = b if isinstance(b, tuple) else (b,)
             if all(isinstance(x_, (str, int, float, Arr, bool)) for x_ in vals_):
                 return Fmt(a, tuple(vals_))          # a string formatted from symbolic values: the values are kept (a hook that receives it can inspect them)
-            return Unk('string formatting', node)
+            return Unk('string formatting (%s)' % ', '.join(repr(x_)[:50] for x_ in vals_), node)
         if isinstance(a, str) and isinstance(b, str) and isinstance(op, ast.Add):
             return a + b
         if isinstance(op, ast.Add) and (isinstance(a, Fmt) or isinstance(b, Fmt)) and isinstance(a, (str, Fmt)) and isinstance(b, (str, Fmt)):
             fa, va = (a.fmt, a.values) if isinstance(a, Fmt) else (a.replace('%', '%%'), ())
             fb, vb = (b.fmt, b.values) if isinstance(b, Fmt) else (b.replace('%', '%%'), ())
             return Fmt(fa + fb, va + vb)
+        if isinstance(op, ast.Mult) and (isinstance(a, str) and isinstance(b, int) or isinstance(a, int) and isinstance(b, str)) and not isinstance(a, bool) and not isinstance(b, bool):
+            return a * b if max(len(a) if isinstance(a, str) else a, len(b) if isinstance(b, str) else b) < 100000 else Unk('string repeated many times', node)
         if isinstance(a, str) or isinstance(b, str):
             return Unk('string arithmetic', node)
         if isinstance(a, list) and isinstance(b, list) and isinstance(op, ast.Add):
@@ -1540,7 +1554,9 @@ class Interp:
         if isinstance(v, SymTable):
             if name == 'dtype':
                 return Obj(None, {'names': v.names()})
-            if name in ('columns', 'colnames'):
+            if name == 'columns':
+                return _Cols(v.names())          # the ordered mapping name -> column: iterates, measures and tests membership as the list of names
+            if name == 'colnames':
                 return v.names()
             return BoundExt(v, name)
         if isinstance(v, Shape):
@@ -1555,7 +1571,7 @@ class Interp:
                 t_ = getattr(v, name)
                 return t_.with_(poly=alg.index_at(t_.poly, lab_, srt_))
             return Unk('attribute %s of an interp1d object' % name, e)
-        if isinstance(v, (GenList, _Repeat)):
+        if isinstance(v, (GenList, _Repeat, _WhereIdx)):
             return BoundExt(v, name)
         if isinstance(v, (list, dict, str, tuple)):
             return BoundExt(v, name)
@@ -1619,6 +1635,11 @@ class Interp:
                 return SymTable({c: Arr(k.dims + tuple(a.dims[1:]), alg.mk_fn('at', B(v.label, a.poly), P(k.poly)), unit=a.unit) for c, a in v.cols.items()}, k.dims[0])
             if isinstance(k, Pinned):
                 return {c: Arr(tuple(a.dims[1:]), a.poly, unit=a.unit) for c, a in v.cols.items()}
+            if isinstance(k, Arr) and k.ndim == 0 and k.mask is None and not _is_boolean(k.poly):
+                # one row, at a position computed from data
+                return {c: Arr(tuple(a.dims[1:]), alg.mk_fn('at', B(v.label, a.poly), P(k.poly)), unit=a.unit) for c, a in v.cols.items()}
+            if isinstance(k, int) and not isinstance(k, bool):
+                return {c: Arr(tuple(a.dims[1:]), alg.mk_fn('at', B(v.label, a.poly), P(num(k))), unit=a.unit) for c, a in v.cols.items()}
             if isinstance(k, Arr) and k.ndim == 1 and _is_boolean(k.poly):
                 raise LabelClash('row mask over axis %r applied to a table whose rows are axis %r in %s' % (k.dims[0], v.label, up(e)))
             return Unk('table index %r' % (k,), e)
@@ -1635,6 +1656,8 @@ class Interp:
             if isinstance(k, int) and not isinstance(k, bool) and k in (0, -1):
                 # first / last position at which the mask holds (IndexError when it holds nowhere)
                 return Arr((), alg.mk_fn('first' if k == 0 else 'last', B(v.mask.dims[0], v.mask.poly)), unit=num(1))
+            if isinstance(k, Arr) and k.ndim == 1 and not _is_boolean(k.poly) and k.mask is None:
+                return v.gather(k)
             return Unk('element %r of the positions selected by a mask' % (k,), e)
         if not isinstance(v, Arr):
             return Unk('subscript of %r' % (v,), e)
@@ -2144,6 +2167,9 @@ class Interp:
                     return self._list_to_arr(x)
                 if isinstance(x, (Arr, int, float)):
                     return self._as_arr(x) if last not in ('int32', 'int64') else self._int(x, e)
+                if isinstance(x, GenList) and last in ('array', 'asarray') and isinstance(x.elem, Arr) and x.elem.mask is None and x.label not in x.elem.dims:
+                    # a list built with one element per position of an axis, made into an array over that axis
+                    return Arr((x.label,) + tuple(x.elem.dims), x.elem.poly, unit=x.elem.unit)
                 return Unk('np.%s(%r)' % (last, x), e)
             if last == 'interp':
                 a = [self._as_arr(v) for v in args[:3]]
@@ -2244,11 +2270,20 @@ class Interp:
                         labs.add(x.dims[0])
                     elif isinstance(x, _Range) and x.label:
                         labs.add(x.label)
+                    elif isinstance(x, SymTable):
+                        labs.add(x.label)
                     else:
                         return Unk('zip of %r' % (x,), e)
                 if len(labs) != 1:
                     return Unk('zip of sequences indexed by different axes %s' % sorted(map(str, labs)), e)
                 return _Zip(list(args), labs.pop())
+            if last == 'enumerate' and (len(args) > 1 or 'start' in kw):
+                st_ = kw.get('start', args[1] if len(args) > 1 else 0)
+                r_ = self.libcall('builtins.enumerate', [args[0]], {}, e, mod)
+                if isinstance(r_, _Enumerate) and isinstance(st_, int) and not isinstance(st_, bool):
+                    r_.start = st_
+                    return r_
+                return Unk('enumerate with a start', e)
             if last == 'enumerate':
                 x = args[0]
                 if isinstance(x, (list, tuple)):
@@ -2259,6 +2294,8 @@ class Interp:
                     return _Enumerate(x, x.dims[0])
                 if isinstance(x, _WhereIdx):
                     return _Enumerate(x, None)
+                if isinstance(x, _Zip):
+                    return _Enumerate(x, x.label)
                 return Unk('enumerate', e)
             if last in ('int', 'float'):
                 return self._int(args[0], e) if last == 'int' else (self._as_arr(args[0]) if not _is_pynum(args[0]) else float(args[0]))
@@ -2445,6 +2482,17 @@ class Interp:
 
     # ---- methods of symbolic values
     def method(self, recv, name, args, kw, e, mod):
+        if isinstance(recv, Foreign) and any(isinstance(a_, _SelectVal) for a_ in args):
+            # an argument chosen between two values by a data-dependent condition: the call is made with each under its condition
+            k_ = next(i_ for i_, a_ in enumerate(args) if isinstance(a_, _SelectVal))
+            sv_ = args[k_]
+            for c_, v_ in ((sv_.cond, sv_.a), (alg.b_not(sv_.cond), sv_.b)):
+                self.conds.append(c_)
+                try:
+                    self.method(recv, name, list(args[:k_]) + [v_] + list(args[k_ + 1:]), kw, e, mod)
+                finally:
+                    self.conds.pop()
+            return None
         if isinstance(recv, Foreign):
             r = recv.sl_method(self, name, args, kw, e)
             return Unk('method %s of %s' % (name, type(recv).__name__), e) if r is NotImplemented else r
@@ -2511,6 +2559,8 @@ class Interp:
                 return recv.with_(dims=tuple(recv.dims[k_] for k_ in perm_))
             if name in ('clip', 'take'):
                 return self.libcall('numpy.' + name, [recv] + args, kw, e, mod)          # x.clip(lo, hi) is np.clip(x, lo, hi)
+            if name == 'strip' and not args and not kw:
+                return recv.with_(poly=alg.mk_fn('strip', P(recv.poly)))          # an element of an array of names, with surrounding blanks removed
             if name == 'searchsorted':
                 return self.libcall('numpy.searchsorted', [recv] + args, kw, e, mod)
             if name == 'is_equivalent':
@@ -2544,7 +2594,17 @@ class Interp:
                 return None
             if name == 'keys':
                 return recv.names()
+            if name == 'argsort' and len(args) == 1 and isinstance(args[0], str) and args[0] in recv.cols and not kw and isinstance(recv.cols[args[0]], Arr):
+                return Arr((recv.label,), alg.array_fn('argsort', recv.label, recv.cols[args[0]].poly), unit=num(1))
+            if name == 'copy' and not args:
+                return SymTable(dict(recv.cols), recv.label)
             return Unk('table method %s' % name, e)
+        if isinstance(recv, _WhereIdx) and name == 'take' and len(args) == 1 and not kw:
+            k_ = self._as_arr(args[0])
+            if isinstance(k_, Arr) and k_.ndim == 1 and k_.mask is None and not _is_boolean(k_.poly):
+                return recv.gather(k_)
+        if isinstance(recv, _Cols) and name == 'keys' and not args:
+            return list(recv)
         if isinstance(recv, list):
             if name == 'append' and args:
                 recv.append(args[0])
@@ -2574,7 +2634,16 @@ class Interp:
                     return getattr(recv, name)(*args, **kw)        # a string method on concrete strings: computed
                 except Exception as ex_:
                     raise PyRaise(type(ex_).__name__, str(ex_))
-            return Unk('string method %s' % name, e)
+            if name == 'join' and len(args) == 1 and isinstance(args[0], (list, tuple)) and all(isinstance(x_, (str, Fmt)) for x_ in args[0]):
+                # pieces formatted from symbolic values joined into one string: the values are kept, in order
+                f_, v_ = '', ()
+                for k_, x_ in enumerate(args[0]):
+                    if k_:
+                        f_ += recv.replace('%', '%%')
+                    f_ += x_.fmt if isinstance(x_, Fmt) else x_.replace('%', '%%')
+                    v_ += x_.values if isinstance(x_, Fmt) else ()
+                return Fmt(f_, v_) if v_ else f_.replace('%%', '%')
+            return Unk('string method %s (%s)' % (name, ', '.join(repr(a_)[:60] for a_ in args)), e)
         if isinstance(recv, _Interp1d) or name == '__call__':
             pass
         return Unk('method %s of %r' % (name, recv), e)
@@ -2640,6 +2709,21 @@ class _WhereIdx:
     def sel_label(self):
         return 'sel:' + alg.show(self.mask.poly, 400)
 
+    def positions(self):
+        """the positions themselves, as an array over the axis of the selection (the primed axis a compress by the mask produces)"""
+        lab = self.mask.dims[0]
+        new = lab + "'"
+        return Arr((new,), alg.mk_fn('nonzero', L(new), B(lab, self.mask.poly)), unit=num(1))
+
+    def gather(self, k):
+        """positions[k] for an index array k"""
+        p = self.positions()
+        return Arr(k.dims, alg.mk_fn('at', B(p.dims[0], p.poly), P(k.poly)), unit=num(1))
+
+
+class _Cols(list):
+    """table.columns: a list of the column names that also answers .keys()"""
+
 
 class Fmt(Foreign):
     """'format' % values with symbolic values"""
@@ -2648,6 +2732,12 @@ class Fmt(Foreign):
 
     def __repr__(self):
         return 'Fmt<%r %% %d values>' % (self.fmt[:30], len(self.values))
+
+
+class _SelectVal:
+    """one of two plain values (pieces of text), chosen by a data-dependent condition"""
+    def __init__(self, cond, a, b):
+        self.cond, self.a, self.b = cond, a, b
 
 
 class _Closing:
@@ -3132,6 +3222,8 @@ def merge_val(a, b, cond, node):
             else:
                 o.attrs[k] = Unk('attribute %s set on one branch only' % k, node)
         return o
+    if cond is not None and isinstance(a, (str, Fmt)) and isinstance(b, (str, Fmt)):
+        return _SelectVal(cond, a, b)          # one of two pieces of text, chosen by the condition
     if isinstance(a, (FuncRef, ClassRef, ModRef, Marker)) and type(a) == type(b):
         return a
     if isinstance(a, tuple) and isinstance(b, tuple) and len(a) == len(b):
